@@ -26,7 +26,12 @@ def budget(tier):
 
 
 def gen_case(rng, tier, k):
-    return gen_plain_case(rng, tier, k, final_full=True)
+    case = gen_plain_case(rng, tier, k, final_full=True)
+    if rng.random() < 0.12:
+        # nodes below the root whose percolated network consists of source variables, expanded by the block strategy
+        case["bnet"] = common.g_idtrap(rng, 6 if tier == "quick" else 7)
+        case["ops"] = case["ops"][:rng.randint(0, 2)] + [["block", rng.random() < 0.5, rng.choice([None, None, 3, 6])]] + case["ops"][2:4]
+    return case
 
 
 def run_case(case):
